@@ -189,7 +189,9 @@ PROPS['C02'] = {
     'exhaustive_in': {'quick': True, 'thorough': True},
     'module': 'SuironVerif.Props.C02',
     'theorems': ['Suiron.C02.cut_executes', 'Suiron.C02.marked_node_blocks', 'Suiron.C02.no_later_clause', 'Suiron.C02.cut_then_fail_ends_call',
-                 'Suiron.C02.cut_is_local', 'Suiron.C02.cut_marks', 'Suiron.C02.cut_yields_at_most_this_answer'],
+                 'Suiron.C02.cut_is_local', 'Suiron.C02.cut_marks', 'Suiron.C02.cut_yields_at_most_this_answer',
+                 'Suiron.C02.C02_flat', 'Suiron.C02.C02_flat_exact', 'Suiron.C02.machine_barriers_wf', 'Suiron.C02.machine_cut',
+                 'Suiron.C02.machine_commit'],
     'oracles': ['C02'],
     'suites': {
         'quick': engine_runs('C02', 1500, [['--cut', '8', '--not', '0'], ['--cut', '5'], ['--cut', '10', '--print', '3', '--not', '0']], what='both'),
@@ -198,7 +200,8 @@ PROPS['C02'] = {
     'rule': E_RULE + " Runs here put `!` at every position of conjunctions and disjunctions (never inside not/time), often followed by `fail`.",
     'design_ref': '5.2',
     'assumptions': ["the theorems are about the engine model: a cut marks every node it passes on its way up, a marked node is never entered again and "
-                    "changes nothing, a call whose body cut and failed tries no later clause, a call never passes a cut on to its caller",
+                    "changes nothing, a call whose body cut and failed tries no later clause, a call never passes a cut on to its caller; the refinement to the "
+                    "reference machine with cut (Spec/CutMachine.lean) is proved for knowledge bases with flat rule bodies only",
                     ENGINE_ASSUME],
 }
 PROPS['C03'] = {
@@ -611,7 +614,11 @@ LEVEL_TEXT = {
     'C02': 'Proved in Lean on the engine model for all nodes, knowledge bases, states and fuel: `!` marks its node and raises the cut flag; every node that '
            'passes the flag on is marked when it returns; a marked node answers none and changes nothing (no retry to the left of the cut, no answer '
            'beyond the one being derived); a call whose body cut and then failed tries no later clause; a call never reports a cut to its caller '
-           '(callers and siblings unaffected). Model tied to the code, and engine compared with the reference machine, on every run.',
+           '(callers and siblings unaffected). For every knowledge base whose rule bodies are flat (empty, one call / built-in / cut, or a conjunction of those) the '
+           'request-by-request answers and output of the engine are exactly the run of a reference machine with cut (refinement C02_flat; the machine is '
+           'deterministic: C02_flat_exact), and on that machine a cut leaves exactly the stack that was there when its clause was chosen (no later clause, no '
+           'alternative to its left, caller untouched), as does the end of a body in which a cut ran. Bodies with nested groups, disjunctions or negation: '
+           'decided by comparing implementation, engine model and executable reference machine on every run.',
     'C03': 'Proved in Lean: the first request on a not-node asks G once and returns its own, unchanged substitution set iff G has no '
            'answer, none otherwise; afterwards the node is exhausted; for every cut-free G and knowledge base `G has no answer` is the reference search for G running '
            'to the empty stack, and `none` is that search showing an answer, as equivalences (C03_iff: the reference machine is deterministic; negation is part of the refinement theorem of C01). G containing `!` / time: '
